@@ -151,6 +151,7 @@ class BridgeRun:
         self.got: list[dict] = []
         self.raise_next = False
         self.warn_n = 0
+        self.keepalive: list = []        # the user keeps the device objects it was handed
         self.burst: dict | None = None   # tag -> {"got": [...], "raise": bool}; deliveries attributed by the device id
         self.order: list[tuple[int, int]] = []
         self.ntag = 0
@@ -168,6 +169,7 @@ class BridgeRun:
         except Exception as x:  # noqa: BLE001
             g = {"cls": "unreadable:" + type(x).__name__}
         g["br"] = br
+        self.keepalive.append(dev)
         if self.burst is not None:
             tag = int(dev.device_id, 16) if isinstance(getattr(dev, "device_id", None), str) and len(dev.device_id) == 6 else -1
             item = self.burst.get(tag)
